@@ -8,11 +8,24 @@
 // One model step = release exactly one thread and wait until it parks again or finishes. After every step
 // the abstract state is projected from the real objects and compared with the model; at the end the
 // observable-only monitors of the properties are evaluated on the real observations and decide the verdict.
+//
+// Failing round trips (model constant Faults): the node's broker and presence manager are faultBroker /
+// faultPresence, thin wrappers around cl.GateBroker / cl.GatePresence whose PublishJoin, PublishLeave, AddPresence,
+// RemovePresence (and Broker.Unsubscribe through GateBroker.UnsubscribeErr) park at the same natural gates and, when
+// the model step that releases them says `fail`, return an error (AddPresence / PublishJoin / PublishLeave /
+// Unsubscribe: nothing reaches the inner implementation; RemovePresence: the removal lands, the reply is lost).
+//
+// Routing attributes (model variable attr): the client-side subscribe of a behaviour carries a client tags filter
+// (fA: SubscribeRequest.Tf) or a server tags filter (fB: OnSubscribe reply options), the server-side subscribe a
+// server tags filter (SubscribeOptions.ServerTagsFilter); both are marked with SubscribeOptions.Source so that the
+// settled-state probe reads from the connection WHICH subscription it reports, publishes three marker publications
+// (admitted only by filter A, only by filter B, untagged) and requires exactly the set that subscription admits.
 package main
 
 import (
 	"context"
 	"encoding/json"
+	"errors"
 	"fmt"
 	"sync"
 	"time"
@@ -48,6 +61,100 @@ type runner struct {
 	jl          []string
 	pendCb      func(centrifuge.SubscribeReply, error)
 	brokerCalls []string
+	failNext    map[string]bool // thread -> the round trip it is parked in returns an error when released
+	attrCS      string          // routing attribute of the client-side / server-side subscribe: "none", "fA", "fB"
+	attrSS      string
+}
+
+var errFault = errors.New("verif: injected round trip failure")
+
+const (
+	srcCS uint8 = 1 // SubscribeOptions.Source of the behaviour's client-side subscription
+	srcSS uint8 = 2 // ... of its server-side subscription
+)
+
+var (
+	filterA = &centrifuge.FilterNode{Key: "t", Cmp: "eq", Val: "a"}
+	filterB = &centrifuge.FilterNode{Key: "t", Cmp: "eq", Val: "b"}
+)
+
+func attrFilter(a string) *centrifuge.FilterNode {
+	switch a {
+	case "fA":
+		return filterA
+	case "fB":
+		return filterB
+	}
+	return nil
+}
+
+// admitted: the marker publications (A: tags t=a, B: tags t=b, U: untagged) a subscription with this attribute gets
+func admitted(a string) string {
+	switch a {
+	case "fA":
+		return "A"
+	case "fB":
+		return "B"
+	}
+	return "ABU"
+}
+
+// faultBroker / faultPresence: cl.GateBroker / cl.GatePresence whose gated round trips can be released with an error.
+type faultBroker struct {
+	*cl.GateBroker
+	w *worker
+}
+
+func (b *faultBroker) PublishJoin(ch string, info *centrifuge.ClientInfo) error {
+	if r := b.w.runner(); r != nil && ch == r.ch {
+		fail := r.gate("PublishJoin")
+		r.mu.Lock()
+		r.jl = append(r.jl, "join")
+		r.mu.Unlock()
+		if fail {
+			return errFault
+		}
+	}
+	return b.Inner.PublishJoin(ch, info)
+}
+
+func (b *faultBroker) PublishLeave(ch string, info *centrifuge.ClientInfo) error {
+	if r := b.w.runner(); r != nil && ch == r.ch {
+		fail := r.gate("PublishLeave")
+		r.mu.Lock()
+		r.jl = append(r.jl, "leave")
+		r.mu.Unlock()
+		if fail {
+			return errFault
+		}
+	}
+	return b.Inner.PublishLeave(ch, info)
+}
+
+type faultPresence struct {
+	*cl.GatePresence
+	w *worker
+}
+
+func (p *faultPresence) AddPresence(ch string, clientID string, info *centrifuge.ClientInfo) error {
+	if r := p.w.runner(); r != nil && ch == r.ch {
+		if r.gate("AddPresence") {
+			return errFault // nothing landed
+		}
+	}
+	return p.Inner.AddPresence(ch, clientID, info)
+}
+
+func (p *faultPresence) RemovePresence(ch string, clientID string, userID string) error {
+	fail := false
+	if r := p.w.runner(); r != nil && ch == r.ch {
+		fail = r.gate("RemovePresence")
+	}
+	err := p.Inner.RemovePresence(ch, clientID, userID)
+	if fail {
+		return errFault // the removal landed, its reply was lost
+	}
+	return err
 }
 
 type worker struct {
@@ -103,13 +210,13 @@ func (r *runner) whoami(kind string) string {
 
 // gate is called from every natural gate / hook. It parks the calling goroutine iff the scheduler expects
 // this thread to park at this kind; otherwise the call passes through.
-func (r *runner) gate(kind string) {
+func (r *runner) gate(kind string) (fail bool) {
 	name := r.whoami(kind)
 	r.mu.Lock()
 	exp := r.expect[name]
 	if exp != kind {
 		r.mu.Unlock()
-		return
+		return false
 	}
 	r.expect[name] = ""
 	r.parked[name] = kind
@@ -122,6 +229,16 @@ func (r *runner) gate(kind string) {
 	}
 	r.mu.Lock()
 	r.parked[name] = ""
+	fail = r.failNext[name]
+	r.failNext[name] = false
+	r.mu.Unlock()
+	return fail
+}
+
+// failOnRelease: the round trip thread `name` is parked in returns an error when it is released next
+func (r *runner) failOnRelease(name string) {
+	r.mu.Lock()
+	r.failNext[name] = true
 	r.mu.Unlock()
 }
 
@@ -167,15 +284,8 @@ func newWorker() (*worker, error) {
 		return nil, err
 	}
 	w.gp = gp
-	env.Node.SetBroker(gb)
-	env.Node.SetPresenceManager(gp)
-	on := func(kind string) func(string) {
-		return func(ch string) {
-			if r := w.runner(); r != nil && ch == r.ch {
-				r.gate(kind)
-			}
-		}
-	}
+	env.Node.SetBroker(&faultBroker{GateBroker: gb, w: w})
+	env.Node.SetPresenceManager(&faultPresence{GatePresence: gp, w: w})
 	gb.OnSubscribe = func(ch string) {
 		if r := w.runner(); r != nil && ch == r.ch {
 			r.mu.Lock()
@@ -184,32 +294,19 @@ func newWorker() (*worker, error) {
 			r.gate("BrokerSubscribe")
 		}
 	}
-	gb.OnUnsubscribe = func(ch string) {
+	// GateBroker.Unsubscribe asks UnsubscribeErr first: the gate of the dissolver job's Broker.Unsubscribe, which a
+	// failing model step releases with an error (nothing reaches the inner broker, no "unsub" is recorded)
+	gb.UnsubscribeErr = func(ch string) error {
 		if r := w.runner(); r != nil && ch == r.ch {
-			r.gate("BrokerUnsubscribe")
+			if r.gate("BrokerUnsubscribe") {
+				return errFault
+			}
 			r.mu.Lock()
 			r.brokerCalls = append(r.brokerCalls, "unsub")
 			r.mu.Unlock()
 		}
+		return nil
 	}
-	gb.OnPublishJoin = func(ch string, _ *centrifuge.ClientInfo) {
-		if r := w.runner(); r != nil && ch == r.ch {
-			r.gate("PublishJoin")
-			r.mu.Lock()
-			r.jl = append(r.jl, "join")
-			r.mu.Unlock()
-		}
-	}
-	gb.OnPublishLeave = func(ch string, _ *centrifuge.ClientInfo) {
-		if r := w.runner(); r != nil && ch == r.ch {
-			r.gate("PublishLeave")
-			r.mu.Lock()
-			r.jl = append(r.jl, "leave")
-			r.mu.Unlock()
-		}
-	}
-	gp.OnAdd = func(ch, _ string) { on("AddPresence")(ch) }
-	gp.OnRemove = func(ch, _ string) { on("RemovePresence")(ch) }
 	env.OnSubscribe = func(_ *centrifuge.Client, e centrifuge.SubscribeEvent, cb centrifuge.SubscribeCallback) {
 		r := w.runner()
 		if r == nil || e.Channel != r.ch {
@@ -223,7 +320,7 @@ func newWorker() (*worker, error) {
 			return
 		}
 		r.gate("OnSubscribe")
-		cb(subReply(), nil)
+		cb(r.subReply(), nil)
 	}
 	env.Setup = func(c *centrifuge.Client) {
 		c.OnAlive(func() {
@@ -252,8 +349,69 @@ func newWorker() (*worker, error) {
 	return w, nil
 }
 
-func subReply() centrifuge.SubscribeReply {
-	return centrifuge.SubscribeReply{Options: centrifuge.SubscribeOptions{EmitPresence: true, EmitJoinLeave: true}}
+// subReply: the OnSubscribe reply of the behaviour's client-side subscribe (attribute fB = a server tags filter set here;
+// fA = the client's own tags filter, sent in the subscribe request and allowed here)
+func (r *runner) subReply() centrifuge.SubscribeReply {
+	o := centrifuge.SubscribeOptions{EmitPresence: true, EmitJoinLeave: true, AllowTagsFilter: true, Source: srcCS}
+	if r.attrCS == "fB" {
+		o.ServerTagsFilter = filterB
+	}
+	return centrifuge.SubscribeReply{Options: o}
+}
+
+func (r *runner) subRequest() *protocol.SubscribeRequest {
+	req := &protocol.SubscribeRequest{Channel: r.ch}
+	if r.attrCS == "fA" {
+		req.Tf = filterA
+	}
+	return req
+}
+
+// reported: the routing attribute of the subscription the connection itself reports for the channel ("" = none)
+func (r *runner) reported() (attr string, subscribed bool) {
+	ctx, ok := r.conn.Client.ChannelsWithContext()[r.ch]
+	if !ok {
+		return "", false
+	}
+	switch ctx.Source {
+	case srcCS:
+		return r.attrCS, true
+	case srcSS:
+		return r.attrSS, true
+	}
+	return "?", true
+}
+
+// markerProbe publishes the three marker publications and returns which of them the connection received (a letter
+// per marker, followed by its count when it arrived more than once), in A, B, U order.
+func (r *runner) markerProbe(subID, unsubID uint32) string {
+	r.conn.Barrier(time.Second)
+	before := len(r.frames(subID, unsubID))
+	n := r.w.env.Node
+	_, _ = n.Publish(r.ch, []byte(`"mA"`), centrifuge.WithTags(map[string]string{"t": "a"}))
+	_, _ = n.Publish(r.ch, []byte(`"mB"`), centrifuge.WithTags(map[string]string{"t": "b"}))
+	_, _ = n.Publish(r.ch, []byte(`"mU"`))
+	r.conn.Barrier(time.Second)
+	cnt := map[string]int{}
+	for _, f := range r.frames(subID, unsubID)[before:] {
+		switch f {
+		case `pub:"mA"`:
+			cnt["A"]++
+		case `pub:"mB"`:
+			cnt["B"]++
+		case `pub:"mU"`:
+			cnt["U"]++
+		}
+	}
+	got := ""
+	for _, k := range []string{"A", "B", "U"} {
+		if cnt[k] == 1 {
+			got += k
+		} else if cnt[k] > 1 {
+			got += fmt.Sprintf("%s%d", k, cnt[k])
+		}
+	}
+	return got
 }
 
 // the process-wide hook gate dispatches by client id
@@ -409,7 +567,11 @@ func gateOf(t, pc string) string {
 func (w *worker) run(bi int, beh []map[string]any, res *vh.Result) {
 	st0 := beh[0]
 	r := &runner{w: w, ch: fmt.Sprintf("lc%d_%d", vh.Seed(), bi), async: vh.Bool(st0["async"]),
-		gids: map[uint64]string{}, expect: map[string]string{}, parked: map[string]string{}, threads: map[string]*thread{}}
+		gids: map[uint64]string{}, expect: map[string]string{}, parked: map[string]string{}, threads: map[string]*thread{},
+		failNext: map[string]bool{}, attrCS: "none", attrSS: "none"}
+	if a := vh.Map(st0["attr"]); a != nil {
+		r.attrCS, r.attrSS = vh.Str(a["CS"]), vh.Str(a["SS"])
+	}
 	t := cl.NewTransport(centrifuge.ProtocolTypeJSON)
 	if vh.Bool(st0["nopush"]) {
 		t.DisabledFlags = centrifuge.PushFlagSubscribe // the server-side subscribe writes no push on this transport
@@ -446,18 +608,19 @@ func (w *worker) run(bi int, beh []map[string]any, res *vh.Result) {
 	}
 	var steps []any
 	completed := 1
-	ops := vh.J(st0["ops"])
+	ops := vh.J(st0["ops"]) + fmt.Sprintf(" attr cs=%s ss=%s", r.attrCS, r.attrSS)
 	type pdrift struct {
 		what   string
 		replay any
 	}
 	var pending []pdrift
 	drift := func(what string) {
-		pending = append(pending, pdrift{fmt.Sprintf("%s (behaviour %d ops %s async %v)", what, bi, ops, r.async), map[string]any{"ops": st0["ops"], "async": r.async, "steps": append([]any(nil), steps...)}})
+		pending = append(pending, pdrift{fmt.Sprintf("%s (behaviour %d ops %s async %v)", what, bi, ops, r.async), map[string]any{"ops": st0["ops"], "attr": st0["attr"], "async": r.async, "steps": append([]any(nil), steps...)}})
 		completed = 0
 	}
 	var subID, unsubID uint32
 	closeStarted := false
+	jobDrift := false // the model's dissolver job step found no job calling Broker.Unsubscribe (all threads had finished)
 	// schedule classes of the behaviour (from the model's pre-states), part of the violation signatures so that a
 	// known finding is matched by the schedule that produces it and not by its symptom alone
 	tags := map[string]bool{}
@@ -492,7 +655,12 @@ func (w *worker) run(bi int, beh []map[string]any, res *vh.Result) {
 		st := beh[si]
 		step := vh.Map(st["step"])
 		thr, act := vh.Str(step["thr"]), vh.Str(step["act"])
-		steps = append(steps, thr+":"+act)
+		fail := vh.Bool(step["fail"]) // the round trip this step releases returns an error
+		if fail {
+			steps = append(steps, thr+":"+act+"(fails)")
+		} else {
+			steps = append(steps, thr+":"+act)
+		}
 		if (act == "UnsubProceed" || act == "Leave") && pendingJoin(beh[si-1]) {
 			tags["unsubscribe-overtakes-pending-join"] = true
 		}
@@ -522,7 +690,7 @@ func (w *worker) run(bi int, beh []map[string]any, res *vh.Result) {
 				doneCh := make(chan struct{})
 				go func() {
 					r.register("CS")
-					conn.Do(&protocol.Command{Id: id, Subscribe: &protocol.SubscribeRequest{Channel: r.ch}})
+					conn.Do(&protocol.Command{Id: id, Subscribe: r.subRequest()})
 					close(doneCh)
 				}()
 				select {
@@ -534,7 +702,7 @@ func (w *worker) run(bi int, beh []map[string]any, res *vh.Result) {
 				prepare("CS", st)
 				go func() {
 					r.register("CS")
-					conn.Do(&protocol.Command{Id: id, Subscribe: &protocol.SubscribeRequest{Channel: r.ch}})
+					conn.Do(&protocol.Command{Id: id, Subscribe: r.subRequest()})
 					r.done("CS")
 				}()
 				advance("CS", st)
@@ -550,7 +718,7 @@ func (w *worker) run(bi int, beh []map[string]any, res *vh.Result) {
 			prepare("CS", st)
 			go func() {
 				r.register("CS")
-				cb(subReply(), nil)
+				cb(r.subReply(), nil)
 				r.done("CS")
 			}()
 			advance("CS", st)
@@ -558,7 +726,8 @@ func (w *worker) run(bi int, beh []map[string]any, res *vh.Result) {
 			prepare("SS", st)
 			go func() {
 				r.register("SS")
-				_ = conn.Client.Subscribe(r.ch, centrifuge.WithEmitPresence(true), centrifuge.WithEmitJoinLeave(true))
+				_ = conn.Client.Subscribe(r.ch, centrifuge.WithEmitPresence(true), centrifuge.WithEmitJoinLeave(true), centrifuge.WithSubscribeSource(srcSS),
+					func(o *centrifuge.SubscribeOptions) { o.ServerTagsFilter = attrFilter(r.attrSS) })
 				r.done("SS")
 			}()
 			advance("SS", st)
@@ -622,11 +791,16 @@ func (w *worker) run(bi int, beh []map[string]any, res *vh.Result) {
 			}
 		case thr == "JOB":
 			// the dissolver job runs >= 1 s after it was submitted; it calls Broker.Unsubscribe only when the channel is empty
-			if !vh.Bool(st["brokerSub"]) && vh.Bool(beh[si-1]["brokerSub"]) {
+			// (a failing call: the job cools down 500 ms, returns the error, is re-queued and arrives here again)
+			if fail || (!vh.Bool(st["brokerSub"]) && vh.Bool(beh[si-1]["brokerSub"])) {
 				r.expectAt("JOB", "BrokerUnsubscribe")
 				if got := r.await("JOB", 8*time.Second); got != "BrokerUnsubscribe" {
 					drift(fmt.Sprintf("dissolver job: got %q, model expects Broker.Unsubscribe", got))
+					jobDrift = true
 					break
+				}
+				if fail {
+					r.failOnRelease("JOB")
 				}
 				r.releaseThread("JOB")
 				time.Sleep(5 * time.Millisecond)
@@ -638,6 +812,9 @@ func (w *worker) run(bi int, beh []map[string]any, res *vh.Result) {
 				break
 			}
 			prepare(thrKey(thr), st)
+			if fail {
+				r.failOnRelease(thrKey(thr))
+			}
 			r.releaseThread(thrKey(thr))
 			advance(thrKey(thr), st)
 		}
@@ -733,6 +910,17 @@ func (w *worker) run(bi int, beh []map[string]any, res *vh.Result) {
 		if j-l != b {
 			fr("C07", fmt.Sprintf("unpaired:joins=%d,leaves=%d,subscribed=%v", j, l, rp.Subscribed), fmt.Sprintf("join/leave not paired: %v with subscribed=%v", rp.JL, rp.Subscribed))
 		}
+		if jobDrift && rp.BrokerSub != rp.Hub {
+			// every thread had finished and the (possibly retried) dissolver job did not arrive within 8 s: give it more
+			// time, then C26's drained-state monitor decides (a job that gave up leaves the node subscribed for nobody)
+			for i := 0; i < 60 && rp.BrokerSub != rp.Hub; i++ {
+				time.Sleep(100 * time.Millisecond)
+				rp = r.project()
+			}
+			if rp.BrokerSub != rp.Hub {
+				fr("C26", fmt.Sprintf("broker=%v,local=%v", rp.BrokerSub, rp.Hub), fmt.Sprintf("all operations finished and no dissolver job calls Broker.Unsubscribe any more: node broker-subscribed=%v but local subscribers present=%v", rp.BrokerSub, rp.Hub))
+			}
+		}
 		if !found {
 			for _, d := range pending {
 				res.Drift("", d.what, d.replay)
@@ -752,24 +940,16 @@ func (w *worker) run(bi int, beh []map[string]any, res *vh.Result) {
 		nojobs := vh.Int(last["jobs"]) == 0
 		fr := r.frames(subID, unsubID)
 		if !rp.Closed {
-			// C04 marker publication: received exactly once iff subscribed
-			conn.Barrier(time.Second)
-			before := len(r.frames(subID, unsubID))
-			_, _ = w.env.Node.Publish(r.ch, []byte(`"marker"`))
-			conn.Barrier(time.Second)
-			after := r.frames(subID, unsubID)
-			got := 0
-			for _, f := range after[before:] {
-				if f == `pub:"marker"` {
-					got++
-				}
+			// C04 marker publications: the connection receives, exactly once each, the markers that the subscription it
+			// REPORTS admits (none when it reports no subscription): routing entry = reported subscription, attributes included
+			want := ""
+			repAttr, repSub := r.reported()
+			if repSub {
+				want = admitted(repAttr)
 			}
-			want := 0
-			if rp.Subscribed {
-				want = 1
-			}
+			got := r.markerProbe(subID, unsubID)
 			if got != want {
-				res.Violate("C04", fmt.Sprintf("marker:%d-of-%d", got, want), fmt.Sprintf("connection reports subscribed=%v but received the marker publication %d times (ops %s, steps %v)", rp.Subscribed, got, ops, steps), map[string]any{"ops": st0["ops"], "async": r.async, "steps": steps})
+				res.Violate("C04", fmt.Sprintf("markers:got=%s,want=%s", got, want), fmt.Sprintf("connection reports subscribed=%v (routing attribute %q) and must receive exactly the marker publications %q of {A: tags t=a, B: tags t=b, U: untagged}, but received %q (ops %s, steps %v)", repSub, repAttr, want, got, ops, steps), map[string]any{"ops": st0["ops"], "attr": st0["attr"], "async": r.async, "steps": steps})
 			}
 		}
 		tagl := ""
@@ -1369,6 +1549,185 @@ func connectcloseprobe(in json.RawMessage, res *vh.Result) error {
 	return nil
 }
 
+// retryBroker: cl.GateBroker that keeps the set of channels the node is subscribed to in the broker, makes every
+// Unsubscribe slow and lets the first `failFirst` Unsubscribe calls fail (nothing reaches the inner broker).
+type retryBroker struct {
+	*cl.GateBroker
+	slow      time.Duration
+	mu        sync.Mutex
+	subs      map[string]bool
+	failed    map[string]int // channel -> failed Unsubscribe calls
+	failFirst int
+	calls     int
+}
+
+func (b *retryBroker) Subscribe(chs ...string) error {
+	if err := b.GateBroker.Subscribe(chs...); err != nil {
+		return err
+	}
+	b.mu.Lock()
+	for _, ch := range chs {
+		b.subs[ch] = true
+	}
+	b.mu.Unlock()
+	return nil
+}
+
+func (b *retryBroker) Unsubscribe(chs ...string) error {
+	time.Sleep(b.slow)
+	b.mu.Lock()
+	b.calls++
+	fail := b.calls <= b.failFirst
+	if fail {
+		for _, ch := range chs {
+			b.failed[ch]++
+		}
+	}
+	b.mu.Unlock()
+	if fail {
+		return errFault
+	}
+	if err := b.GateBroker.Unsubscribe(chs...); err != nil {
+		return err
+	}
+	b.mu.Lock()
+	for _, ch := range chs {
+		delete(b.subs, ch)
+	}
+	b.mu.Unlock()
+	return nil
+}
+
+func (b *retryBroker) snapshot() (subs []string, failed map[string]int, calls int) {
+	b.mu.Lock()
+	defer b.mu.Unlock()
+	failed = map[string]int{}
+	for ch := range b.subs {
+		subs = append(subs, ch)
+	}
+	for ch, n := range b.failed {
+		failed[ch] = n
+	}
+	return subs, failed, b.calls
+}
+
+// jobretryprobe (C26, spec/SubLifecycle/Dissolver.tla): a backlog of deferred broker unsubscribes (more emptied
+// channels than dissolver workers) whose first wave of Broker.Unsubscribe calls fails. The model puts a failed job
+// back into the queue and retries it until it succeeds: at rest the node is broker-subscribed to exactly the channels
+// with local subscribers. Two connections subscribe to `chans` channels each, both leave at once, the first
+// `fail` Unsubscribe calls fail and every call is slow; afterwards the broker's subscription set must become empty.
+func jobretryprobe(in json.RawMessage, res *vh.Result) error {
+	var cfg struct {
+		N     int `json:"n"`
+		Chans int `json:"chans"` // per connection
+		Fail  int `json:"fail"`
+	}
+	_ = json.Unmarshal(in, &cfg)
+	if cfg.N == 0 {
+		cfg.N = 1
+	}
+	if cfg.Chans == 0 {
+		cfg.Chans = 64
+	}
+	if cfg.Fail == 0 {
+		cfg.Fail = 64 // the node's dissolver has 64 workers (node.go numSubDissolverWorkers): the whole first wave
+	}
+	for i := 0; i < cfg.N; i++ {
+		env, err := cl.NewEnv(centrifuge.Config{LogLevel: centrifuge.LogLevelNone})
+		if err != nil {
+			return err
+		}
+		gb, err := cl.NewGateBroker(env.Node)
+		if err != nil {
+			return err
+		}
+		rb := &retryBroker{GateBroker: gb, slow: 60 * time.Millisecond, subs: map[string]bool{}, failed: map[string]int{}, failFirst: cfg.Fail}
+		env.Node.SetBroker(rb)
+		if err := env.Run(); err != nil {
+			return err
+		}
+		conns := []*cl.Conn{}
+		setupOK := true
+		for k := 0; k < 2; k++ {
+			c, _ := env.NewConn(fmt.Sprintf("u%d", k), centrifuge.ProtocolTypeJSON)
+			if c.Connect() == nil {
+				setupOK = false
+			}
+			conns = append(conns, c)
+		}
+		total := 0
+		for k, c := range conns {
+			for j := 0; j < cfg.Chans && setupOK; j++ {
+				if err := c.Client.Subscribe(fmt.Sprintf("jr%d_%d_%d_%d", vh.Seed(), i, k, j)); err != nil {
+					setupOK = false
+				}
+				total++
+			}
+		}
+		if subs, _, _ := rb.snapshot(); !setupOK || len(subs) != total {
+			res.Drift("C26", fmt.Sprintf("jobretryprobe: setup failed (%d of %d channels subscribed in the broker)", len(subs), total), nil)
+			res.Done(1, 0)
+			env.Close()
+			continue
+		}
+		// everybody leaves at once: `total` deferred unsubscribe jobs for 64 workers
+		for _, c := range conns {
+			c.Client.Disconnect()
+		}
+		deadline := time.Now().Add(25 * time.Second)
+		var left []string
+		var failed map[string]int
+		calls := 0
+		quiet := 0
+		for time.Now().Before(deadline) {
+			time.Sleep(100 * time.Millisecond)
+			var n int
+			left, failed, n = rb.snapshot()
+			if len(left) == 0 {
+				calls = n
+				break
+			}
+			// at rest = no Unsubscribe call for 5 s although channels are still subscribed (a retry comes within
+			// ~0.6 s of the failure: 500 ms cool-down + queue); keep waiting until the deadline otherwise
+			if n == calls {
+				quiet++
+			} else {
+				quiet = 0
+			}
+			calls = n
+			if quiet >= 50 && n >= total {
+				break
+			}
+		}
+		local := 0
+		for _, ch := range left {
+			if env.Node.Hub().NumSubscribers(ch) > 0 {
+				local++
+			}
+		}
+		leakedFailed := 0
+		for _, ch := range left {
+			if failed[ch] > 0 {
+				leakedFailed++
+			}
+		}
+		replay := map[string]any{"probe": "2 connections x channels subscribed, both disconnect at once; every Broker.Unsubscribe slow, the first wave fails", "channels": total, "failing_calls": cfg.Fail,
+			"unsubscribe_calls": calls, "still_broker_subscribed": len(left), "of_them_failed_once": leakedFailed, "of_them_with_local_subscribers": local}
+		if len(left)-local > 0 {
+			sig := "broker-sub-without-local-interest:after-failed-unsubscribe"
+			if leakedFailed == 0 {
+				sig = "broker-sub-without-local-interest:never-failed"
+			}
+			res.Violate("C26", sig, fmt.Sprintf("%d of %d channels are still subscribed in the broker with no local subscriber after the deferred unsubscribes drained (%d of them had a failing Broker.Unsubscribe that was never retried; %d Unsubscribe calls in total)", len(left)-local, total, leakedFailed, calls), replay)
+		}
+		res.Distinct(fmt.Sprintf("jobretry-%d-%d", total, cfg.Fail))
+		res.Sample(replay)
+		res.Done(1, 1)
+		env.Close()
+	}
+	return nil
+}
+
 func main() {
-	vh.Main(map[string]vh.Mode{"replay": replay, "jobprobe": jobprobe, "subfailprobe": subfailprobe, "pubunsubprobe": pubunsubprobe, "connectcloseprobe": connectcloseprobe})
+	vh.Main(map[string]vh.Mode{"replay": replay, "jobprobe": jobprobe, "jobretryprobe": jobretryprobe, "subfailprobe": subfailprobe, "pubunsubprobe": pubunsubprobe, "connectcloseprobe": connectcloseprobe})
 }
